@@ -20,7 +20,7 @@ for d in sorted(os.listdir('/verif/seeded')):
     det=None; t0=time.time()
     try:
         for p in props:
-            env=dict(os.environ,VERIF_BUDGET_S=bud)
+            env=dict(os.environ,VERIF_BUDGET_S=bud,VERIF_EVIDENCE_DIR='/dev/shm/mut-evidence',VERIF_REPLAY_DIR='/dev/shm/mut-replays')
             r=subprocess.run(['./check',p,'quick'],capture_output=True,text=True,env=env)
             if r.returncode==1 and 'VIOLATION property=' in r.stdout:
                 det=p; break
